@@ -300,5 +300,7 @@ func (m *Menu) reset() {
 func (m *Menu) Reset() {
 	m.menu = [][2]string{}
 	m.sink = false
+	m.keep = true
+	m.pageCount = 0
 	m.reset()
 }
